@@ -188,6 +188,12 @@ func (c11) Gen(r *sim.RNG, tier string, idx int) *Scenario {
 	cfg.HTTP = r.Bool(0.3)
 	sc.Cfg = &cfg
 	w := gen.Generate(r, cfg)
+	if r.Intn(5) == 0 {
+		// a systematic element chain (hops inside the root and across documents)
+		w = gen.Chain(r.Intn(gen.ChainCount))
+		sc.Cfg = nil
+		sc.Note = "element chain"
+	}
 	switch r.Intn(6) {
 	case 0:
 		w = relocate(w, "file://"+gen.Prefix+"/", "http://h.test/w/")
